@@ -187,7 +187,9 @@ def array_shard(args):
                  ("array(dtype)", lambda: vector.array(list(zip(*[cols[n] for n in names])), dtype=[(n, float) for n in names]))]
         if ak is not None:
             ctors += [("zip", lambda: vector.zip({n: cols[n] for n in names})),
-                      ("Array", lambda: vector.Array([{n: float(cols[n][r]) for n in names} for r in range(2)]))]
+                      ("Array", lambda: vector.Array([{n: float(cols[n][r]) for n in names} for r in range(2)])),
+                      ("Array(ak.Array)", lambda: vector.Array(ak.Array([{n: float(cols[n][r]) for n in names} for r in range(2)]))),
+                      ("zip(ak.Array-columns)", lambda: vector.zip({n: ak.Array(cols[n]) for n in names}))]
         ctors = [(c, f, cols) for c, f in ctors]
         # columns of different numeric dtypes given in non-canonical (reversed / rotated) key order
         DT = (np.int64, np.float64, np.float32, np.int32)
